@@ -119,7 +119,9 @@ def run_tlc(module, cfg_text, workdir, env=None, workers=1, extra=(), timeout=36
     with open(cfg, 'w') as f:
         f.write(cfg_text)
     meta = os.path.join(workdir, 'meta')
-    cmd = ['java', '-XX:+UseParallelGC', '-Xss512m', '-Xmx' + heap, '-cp', TLA_JAR, 'tlc2.TLC',
+    jtmp = os.path.join(workdir, 'jtmp')     # TLC leaves an empty tlc-<n> directory per run in java.io.tmpdir
+    os.makedirs(jtmp, exist_ok=True)
+    cmd = ['java', '-XX:+UseParallelGC', '-Xss512m', '-Xmx' + heap, '-Djava.io.tmpdir=' + jtmp, '-cp', TLA_JAR, 'tlc2.TLC',
            '-workers', str(workers), '-metadir', meta, '-noGenerateSpecTE',
            '-config', cfg]
     if not deadlock:
